@@ -162,7 +162,7 @@ def task(payload):
 
 DRAW = {1: {'Fracture Separation': ['10', '100'], 'Number of Fractures': ['4', '60']},
         2: {'Reservoir Volume': ['5e7', '1e9'], 'Reservoir Porosity': ['0.001', '0.3']},
-        3: {'Drawdown Parameter': ['0.00002', '0.0002', '0.2']},
+        3: {'Drawdown Parameter': ['0.00002', '0.0002', '0.0006', '0.002', '0.2']},     # 0.0006, 0.002: the curve comes within a few degrees of its asymptote midway through the lifetime
         4: {'Drawdown Parameter': ['0', '0.005', '0.04', '0.1', '0.2']}}
 
 
